@@ -349,15 +349,13 @@ theorem ValidOrder.length {alts : List String} {values : List Nat} {order : List
 section field
 variable {α : Type} [Field α] [LinearOrder α] [IsStrictOrderedRing α]
 
-theorem unamesLoop_length (names : List String) (tbl : List (String × Nat)) (acc : List String) :
-    (unamesLoop names tbl acc).length = names.length + acc.length := by
-  induction names generalizing tbl acc with
+theorem unamesLoop_length (names : List String) (tbl : List (String × Nat)) (used acc : List String) :
+    (unamesLoop names tbl used acc).length = names.length + acc.length := by
+  induction names generalizing tbl used acc with
   | nil => simp [unamesLoop]
   | cons n rest ih =>
     simp only [unamesLoop]
-    split
-    · split <;> simp [ih] <;> omega
-    · simp [ih]; omega
+    split <;> simp [ih] <;> omega
 
 theorem uniqueNames_length (names : List String) : (uniqueNames names).length = names.length := by
   simp [uniqueNames, unamesLoop_length]
